@@ -375,6 +375,26 @@ def check_once(ctx, out, dv, rule="C11.once"):
     pops = [(bi, t) for bi, t in dv.calls() if callee_matches(t, r"Vec::<T, A>::pop$")]
     dets = [(bi, t) for bi, t in dv.calls() if callee_matches(t, r"validators::ValidatorDetector::detect$")]
     if len(pops) != 1 or len(dets) != 1:
+        # an index scan that removes in place: after `remove(i)` / `swap_remove(i)` another element sits
+        # at i; advancing i on that path skips it (it is never asked about the current block)
+        for rbi, rt in dv.calls():
+            if not callee_matches(rt, r"Vec::<T, A>::(swap_remove|remove)$") or len(rt["args"]) < 2:
+                continue
+            il = util.op_place(rt["args"][1])
+            h = cfg.innermost_loop(rbi)
+            if il is None or h is None:
+                continue
+            il0 = il["l"]
+            src = dv.single_def(il0)
+            if src and src[0] == "stmt" and src[3]["rv"]["k"] == "use" and util.op_place(src[3]["rv"]["op"]):
+                il0 = util.op_place(src[3]["rv"]["op"])["l"]
+            r = cfg.reach(rbi, avoid={h})
+            for bi, j, s in dv.assigns():
+                if bi in r and s["lhs"]["l"] == il0 and not s["lhs"]["p"]:
+                    ee = E.rvalue(s["rv"]) if hasattr(E, "rvalue") else None
+                    out.viol(rule, "%s|skip-after-remove" % rule, ctx.where(dv, rt["span"]),
+                             "the pending detectors are scanned by index and removed in place with `%s`; on the path from the removal the index is advanced, so the detector moved into that slot is never asked about the current block: its validator may never be created" % callee_name(rt).split("::")[-1])
+                    break
         out.inst(rule, 0, 4, note="pop / detect sites not found (%d/%d)" % (len(pops), len(dets)))
         return
     pbi, pt = pops[0]
@@ -492,6 +512,107 @@ FLAGS = {
 }
 
 
+SHAPING = {"num_args", "value_delimiter", "value_terminator", "trailing_var_arg", "last", "index", "required", "default_value", "default_values",
+           "default_missing_value", "default_missing_values", "default_value_if", "default_value_ifs", "allow_hyphen_values", "allow_negative_numbers",
+           "require_equals", "conflicts_with", "conflicts_with_all", "requires", "requires_if", "requires_ifs", "required_unless_present", "exclusive",
+           "env", "overrides_with", "overrides_with_all", "raw", "group", "groups", "ignore_case", "hide"}
+
+
+def cli_args(ctx):
+    """{argument id: {"methods": [(builder method, [const args])], "where": str, "cmd": body}} read from the
+    clap derive output (augment_args / augment_subcommands MIR)."""
+    got = {}
+    for b in ctx.facts.bodies.values():
+        if b.promoted is not None or not re.search(r"flags::\w+ as clap::(Args>::augment_args|Subcommand>::augment_subcommands)$", b.id):
+            continue
+        E = ctx.expr(b)
+        sub = "list:" if "Subcommand" in b.id else ""
+        for bi, t in b.calls():
+            if not callee_matches(t, r"clap::Command::arg$"):
+                continue
+            e = E.operand(t["args"][1])
+            ms = []
+            aid = None
+            for x in walk(e):
+                if x[0] == "call" and "clap::Arg::" in x[1]:
+                    m = x[1].split("::")[-1]
+                    args = [a[1] if a[0] == "const" else render(a, 80) for a in x[2][1:]]
+                    ms.append((m, args))
+                    if m == "new":
+                        ids = [y[2][0][1] for y in walk(x) if y[0] == "call" and y[1].endswith("clap::Arg::new") and y[2] and y[2][0][0] == "const"]
+                        if not ids:
+                            ids = [z[1] for y in walk(x) for z in (y[2] if y[0] == "call" else []) if isinstance(z, tuple) and z[0] == "const" and isinstance(z[1], str)]
+                        aid = ids[0] if ids else None
+            if aid is None:
+                # Arg::new(Id::from("name"))
+                cs = [z[1] for y in walk(e) if y[0] == "call" and y[1].endswith("::from") for z in y[2] if z[0] == "const" and isinstance(z[1], str)]
+                aid = cs[0] if cs else "?"
+            got[sub + aid] = {"methods": ms, "where": ctx.where(b, t["span"]), "body": b.id}
+    return got
+
+
+def check_cli_shape(ctx, out, rule, want):
+    """want: {arg id: "option" | "positional"}. An option takes exactly one value per use and accumulates
+    (Append); a positional list takes one-or-more values; neither has any other clap setting that changes
+    which command-line words it consumes."""
+    got = cli_args(ctx)
+    n = 0
+    for aid, kind in want.items():
+        g = got.get(aid)
+        if g is None:
+            out.viol(rule, "%s|%s|missing" % (rule, aid), "-", "command-line argument `%s` is not defined" % aid)
+            continue
+        ms = dict((m, a) for m, a in g["methods"])
+        is_opt = "long" in ms or "short" in ms
+        if is_opt != (kind == "option"):
+            out.viol(rule, "%s|%s|kind" % (rule, aid), g["where"], "argument `%s` is %s; documented as %s" % (aid, "an option" if is_opt else "a positional", kind))
+            continue
+        shaping = sorted(set(ms) & SHAPING)
+        if kind == "positional" and ms.get("num_args") and "RangeFrom{1}" in str(ms["num_args"][0]):
+            shaping.remove("num_args")
+        if shaping:
+            out.viol(rule, "%s|%s|%s" % (rule, aid, "+".join(shaping)), g["where"],
+                     "argument `%s` is configured with %s: this changes which command-line words it consumes (e.g. an option taking several values swallows the positional globs that follow it)" % (aid, ", ".join("%s(%s)" % (m, ",".join(map(str, ms[m]))) for m in shaping)))
+            continue
+        if "Append" not in str(ms.get("action")):
+            out.viol(rule, "%s|%s|action" % (rule, aid), g["where"], "argument `%s` does not accumulate repeated uses (action %s)" % (aid, ms.get("action")))
+            continue
+        n += 1
+    out.inst(rule, n, len(want), ["%s:%s" % kv for kv in want.items()], exhaustive=True)
+
+
+def check_parse_entry(ctx, out, rule="C14.parse"):
+    """The command line is parsed with `clap::Parser::parse` (clap prints the error and exits with
+    status 2 itself) - or with a fallible variant whose Err is returned from main."""
+    main = ctx.facts.bodies.get("bwbin::main")
+    if main is None:
+        out.inst(rule, 0, 1)
+        return
+    n = 0
+    for bi, t in main.calls():
+        if callee_matches(t, r"clap::Parser::(parse|parse_from)$"):
+            n += 1
+        elif callee_matches(t, r"clap::Parser::(try_parse|try_parse_from|try_update_from)$"):
+            bad = []
+            for p, recs in ctx.rf.classify(main, bi, t, ctx.rf.result_paths(main, t) if hasattr(ctx.rf, "result_paths") else [()]):
+                bad += [r for r in recs if shared.is_bad(r["class"])]
+            # a usage error must end in a non-zero status: the Err arm leads only to `return Err` or process::exit(non-zero)
+            sw = cfg_of(main).succ[bi]
+            from rules.C12 import only_err_from
+            ok = False
+            if sw and main.blocks[sw[0]]["term"] and main.blocks[sw[0]]["term"]["k"] == "switch":
+                arms = util.switch_arms(main, sw[0])
+                ea = arms.get(1)
+                if ea is not None:
+                    ok, _ = only_err_from(ctx, main, ea)
+            if ok and not bad:
+                n += 1
+            else:
+                out.viol(rule, "%s|usage-error-exit" % rule, ctx.where(main, t["span"]),
+                         "the command line is parsed with `%s` and a usage error (e.g. an unknown validator name) does not end in `return Err`: the rejection is printed but the exit status is 0" % callee_name(t).split("::")[-1])
+    out.inst(rule, n, 1, ["main: Args::parse()"])
+
+
 def check_flags(ctx, out):
     """The clap wiring (derive output, read from the expanded MIR): flag name -> argument id -> struct
     field, value parser and Append action (repetition accumulates)."""
@@ -554,6 +675,14 @@ def run(ctx, out, tier):
         check_once(ctx, out, dv, rule="C14.once")
     check_reject(ctx, out)
     check_flags(ctx, out)
+    check_cli_shape(ctx, out, "C14.cli", {"disabled_validators": "option", "enabled_validators": "option"})
+    # the rejection of an unknown / conflicting selection reaches the exit status (no Result dropped
+    # in main, the flag accessors and the validator driver), and each validator's diagnostics survive
+    # the merge whichever other validators are selected
+    bodies = [b for b in ctx.reachable_bodies() if b.id.startswith("bwbin::") or b.id.startswith("blockwatch::flags::") or re.match(r"blockwatch::validators::[a-z_]+(::\{closure#\d+\})*$", b.id)]
+    shared.sh_err(ctx, out, bodies, floor=60)
+    shared.sh_merge(ctx, out, ctx.reachable_bodies())
+    check_parse_entry(ctx, out)
     shared.sh_main(ctx, out)
     return meta()
 
